@@ -331,7 +331,7 @@ func verifRunA(c *verifsim.Ctx) {
 				vt.undoRetries = 1 + c.Draw("n-undo-retry", 2)
 				vt.undoRetryAfter = []time.Duration{0, time.Second, 3 * time.Minute, 2 * time.Hour}[c.Draw("undo-retryafter", 4)]
 			}
-			if cfg.spawn && vt.script == verifScriptOK && c.Chance("spawns", 1, 5) {
+			if cfg.spawn && (vt.script == verifScriptOK || vt.script == verifScriptWait) && c.Chance("spawns", 1, 5) {
 				vt.spawn = 1 + c.Draw("nspawn", 2)
 				vt.careless = c.Chance("spawns-even-when-aborted", 1, 2)
 			}
@@ -813,6 +813,10 @@ func (w *verifWorldA) release(p *verifParked) {
 			vt.doApplied++
 			vt.lastOp = "do"
 			vt.inWait = true
+			if vt.spawn > 0 {
+				// (link-snap of a kernel: injects auto-connect, then asks for a reboot)
+				w.spawnTasks(vt)
+			}
 			if vt.waitBySet && !killed {
 				w.setToWait(vt, state.DoneStatus)
 			} else {
@@ -1125,6 +1129,64 @@ func (w *verifWorldA) observe() {
 			}
 			if cs == state.WaitStatus && !held[state.WaitStatus] {
 				c.Violate("C03/aggregate", "change %d reports Wait but no task is in Wait", vc.idx)
+			}
+			// "with all pending tasks blocked by other tasks in WaitStatus" the
+			// change reports Wait: judged in the clear-cut case only (nothing
+			// runs, at least one task waits, every pending task reaches a waiting
+			// task through pending tasks of its own direction and has nothing
+			// else unfinished in its way)
+			if held[state.WaitStatus] && !held[state.DoingStatus] && !held[state.UndoingStatus] && !held[state.AbortStatus] {
+				memo := map[string]int{}
+				var blocked func(id string, undo bool) bool
+				blocked = func(id string, undo bool) bool {
+					if v := memo[id]; v != 0 {
+						return v == 1
+					}
+					memo[id] = 2
+					vt := w.tasks[id]
+					deps := vt.waits
+					if undo {
+						deps = vt.halts
+					}
+					reach := false
+					for _, d := range deps {
+						dt := w.st.Task(d)
+						if dt == nil {
+							return false
+						}
+						switch ds := dt.Status(); {
+						case ds == state.WaitStatus:
+							reach = true
+						case !undo && ds == state.DoneStatus, undo && ds.Ready():
+						case !undo && ds == state.DoStatus, undo && ds == state.UndoStatus:
+							if !blocked(d, undo) {
+								return false
+							}
+							reach = true
+						default:
+							return false
+						}
+					}
+					if reach {
+						memo[id] = 1
+					}
+					return reach
+				}
+				all := true
+				for _, t := range tasks {
+					switch t.Status() {
+					case state.DoStatus:
+						all = all && blocked(t.ID(), false)
+					case state.UndoStatus:
+						all = all && blocked(t.ID(), true) && w.tasks[t.ID()].undoable
+					}
+				}
+				if all {
+					c.Count("probe:change-with-every-pending-task-blocked-by-a-waiting-task")
+					if cs != state.WaitStatus {
+						c.Violate("C03/aggregate", "change %d: nothing runs and every pending task is blocked by a task in Wait, yet the change reports %v instead of Wait", vc.idx, cs)
+					}
+				}
 			}
 			if chg.IsReady() != allReady {
 				c.Violate("C03/ready-mismatch", "change %d IsReady=%v but all-tasks-ready=%v", vc.idx, chg.IsReady(), allReady)
